@@ -251,6 +251,37 @@ def run_shard(args):
                 (st1, d1, _), f1 = run_file([(s, pos)], fmt)
                 if st1 in ("violation", "crashed"):
                     out["violations"].append({"kind": d1.get("kind", st1), "detail": {"string": repr(s), "position": pos, "formatter": fmt, **{k: v for k, v in d1.items() if k != "new"}, "new": d1.get("new", "")[-700:]}, "witness": {"files": f1, "flags": ["create", "fix"]}, "finding": None})
+    # ---- real sessions: the literal goes through the plugin's file writer; process locale UTF-8 / ASCII (UTF-8 mode off)
+    from .. import session
+    from .c03 import LOCALES
+
+    if args.shard < len(LOCALES) or tier == "thorough":
+        lname, lenv = LOCALES[args.shard % len(LOCALES)]
+        rs = random.Random(f"{args.seed}/{PROP}/session/{args.shard}")
+        strs = ["h\u00e9llo\nw\u00f6rld", "\u65e5\u672c \u2192 'x'", "\U0001f600 \"q\"", "plain"] + [random_string(rs) for _ in range(6)]
+        strs = [x for x in strs if isinstance(x, str) and "\x00" not in x and "\r" not in x]
+        body = "".join(f"\n\ndef test_{i}():\n    assert S[{i}] == snapshot()\n    assert [S[{i}], 1] == snapshot()\n" for i in range(len(strs)))
+        src = "from inline_snapshot import snapshot\n\nS = " + ascii(strs) + "\n" + body
+        proj = session.Project({"test_a.py": src}, with_vp=False)
+        try:
+            r1 = session.run_session(proj, ["--inline-snapshot=create"], env=lenv)
+            r2 = session.run_session(proj, ["--inline-snapshot=disable"], env=lenv)
+        finally:
+            proj.close()
+        out["counters"]["real_sessions_locale_" + lname] = out["counters"].get("real_sessions_locale_" + lname, 0) + 1
+        out["evaluations"] += len(strs)
+        out["signatures"].add(f"real-session/{lname}")
+        wit = {"files": {"test_a.py": src}, "args": ["--inline-snapshot=create"], "env": lenv}
+        raw = r1.after.get("test_a.py", b"")
+        try:
+            raw.decode("utf-8")
+            bad_utf8 = False
+        except UnicodeDecodeError:
+            bad_utf8 = True
+        if any(a["kind"] == "sessionfinish_exception" for a in r1.audit):
+            out["violations"].append({"kind": "session-end-raised", "detail": {"locale": lname, "events": [a for a in r1.audit if a["kind"] == "sessionfinish_exception"], "file_size_after": len(raw)}, "witness": wit, "finding": None})
+        elif bad_utf8 or r2.exit != 0:
+            out["violations"].append({"kind": "created-literals-do-not-read-back(real session)", "detail": {"locale": lname, "valid_utf8": not bad_utf8, "exit": r2.exit, "outcomes": {t: o for t, o in r2.outcomes.items() if o != "passed"}, "stdout_tail": r2.stdout[-500:]}, "witness": wit, "finding": None})
     out["counters"]["contract_evals"] = dict(mon.counts)
     for v in mon.failures[:20]:
         out["violations"].append({"kind": "contract:" + v["contract"], "detail": v, "witness": v, "finding": None})
